@@ -142,6 +142,18 @@ def solve(events):
             "solved_by": solved_by, "cycle_edges": checked}
 
 
+def compound_declared(solved):
+    """Base-unit tokens that have a declared equivalence to a compound expression."""
+    out = set()
+    for e in solved["equations"]:
+        for side, other in ((e.ev["a"], e.ev["b"]), (e.ev["b"], e.ev["a"])):
+            f = side["u"]["factors"]
+            g = other["u"]["factors"]
+            if len(f) == 1 and f[0][1] == 1 and (len(g) > 1 or sum(x for _, x in g) > 1):
+                out.add(f[0][0])
+    return out
+
+
 def analyse(events):
     s = solve(events)
     violations = []
